@@ -59,6 +59,18 @@ def main():
             shutil.copy(os.path.join(wt, f), os.path.join(out, f))
     demo = [f for f in os.listdir(wt) if f.startswith("demo_") and f.endswith(".py")]
     meta = dict(id=sid, property=prop, ran=[])
+    prev = {}
+    if os.path.exists(os.path.join(out, "meta.json")):
+        try:
+            prev = json.load(open(os.path.join(out, "meta.json")))
+        except Exception:
+            prev = {}
+    if "--skip-tests" in a and "tests" in prev:
+        meta["tests"] = prev["tests"]
+        meta["ran"].append("pytest on the worktree with the change vs. the current baseline pass set (earlier run of this tool)")
+    for k in ("needs", "summary"):
+        if k in prev:
+            meta[k] = prev[k]
     # demo with / without
     if demo:
         d = demo[0]
